@@ -214,3 +214,31 @@ Proof.
   intros gs g Hs Ig. destruct ex_backward_default_hyps as (H1 & H2 & _).
   exact (proj2 (proj2 (its_list_default_bool true ex_inp_b ex_tpl_x _ _ _ gs (proj1 ex_default_tpl_okb) eq_refl H1 eq_refl H2 Hs g Ig))).
 Qed.
+
+(** no crash (proof/C03_NoCrash.v, C03_Total.v) *)
+From SK Require Import proof.C03_WiringCount proof.C03_NoCrash proof.C03_Total.
+(** the graph glued from the rule prepared from ex_tpl_x on CH3OH . NH3: its one group {2, 3} is exact, _explicit_h cannot
+    raise (default_glued_exact builds the ledger: hydrogen 2 of the template leaves the image of atom 1 and joins that of 3) *)
+Example ex_default_glued_exact :
+  pairs_exactb ex_T_s = true /\ grouped ex_T_s 2%N = true /\ dl_of ex_T_s 2%N = 1 /\ dl_of ex_T_s 3%N = -1 /\
+  explicit_h_ord sort_N ex_T_s <> None.
+Proof.
+  assert (Hel : forall k a, In (k, a) (gnodes ex_tpl_x) -> a_el (iH a) = a_el (iG a)).
+  { intros k a I. simpl in I. destruct I as [I|[I|[I|[]]]]; inversion I; reflexivity. }
+  destruct ex_default_changed_bonds as (_ & H2 & H3 & H4 & _).
+  destruct (default_glued_exact ex_tpl_x ex_rc_s ex_l_s ex_r_s ex_host_h ex_m_s ex_T_s eq_refl Hel eq_refl (proj1 ex_default_mode_hyps)
+              ex_tpl_condition H2 H3 H4) as (A & _ & C).
+  split; [exact A|]. split; [reflexivity|]. split; [reflexivity|]. split; [reflexivity|].
+  apply C; [intros; apply in_sort_N_iff|intros; apply nodup_sort_N; assumption].
+Qed.
+Example ex_default_reactor_total :
+  nocrash ex_inp_d /\ nocrash ex_inp_b /\
+  run_ops ex_inp_b rs0 [Osmiles; Oits; Oits; Osmarts] = map (spec_val ex_inp_b) [Osmiles; Oits; Oits; Osmarts] /\
+  exists gs, spec_its ex_inp_b = Some gs.
+Proof.
+  destruct ex_backward_default_hyps as (H1 & H2 & _).
+  destruct (default_reactor_total true ex_inp_b ex_tpl_x _ _ _ (proj1 ex_default_tpl_okb) eq_refl H1 eq_refl H2) as (A & B & C & _).
+  destruct ex_default_mode_hyps as (F1 & _).
+  destruct (default_reactor_total false ex_inp_d ex_tpl_x _ _ _ (proj1 ex_default_tpl_okb) eq_refl F1 eq_refl (proj1 (proj2 (proj2 (proj2 ex_default_end_to_end_hyps))))) as (A' & _).
+  split; [exact A'|]. split; [exact A|]. split; [exact (B _)|exact C].
+Qed.
